@@ -76,6 +76,20 @@ func suiteStream(rn *runner, r *rng, tier string) {
 			nl = 3000 + cr.intn(3000)
 		}
 		text, lines := cr.ndjson(cfg, nl, false)
+		huge := i == 0 || (tier == "thorough" && i%400 == 0)
+		if huge {
+			// more than the 10 MiB read buffer, lines of about 4 KiB, delivered in one or a few huge reads: the chunk
+			// boundary falls inside a line whose tail is much longer than the 1 KiB head room of the pooled buffer
+			var hb strings.Builder
+			lines = lines[:0]
+			for k := 0; hb.Len() < 11<<20; k++ {
+				l := fmt.Sprintf("{\"id\":%d,\"pad\":\"%s\"}", k, strings.Repeat("x", 3000+cr.intn(2000)))
+				lines = append(lines, l)
+				hb.WriteString(l)
+				hb.WriteByte('\n')
+			}
+			text = hb.String()
+		}
 		// expected documents: each non-blank line parsed alone
 		var want []string
 		okLines := true
@@ -97,6 +111,9 @@ func suiteStream(rn *runner, r *rng, tier string) {
 		// fragmentation
 		var sizes []int
 		mode := cr.intn(6)
+		if huge {
+			mode = 5
+		}
 		for tot := 0; tot < len(text)+10; {
 			var k int
 			switch mode {
@@ -130,7 +147,7 @@ func suiteStream(rn *runner, r *rng, tier string) {
 			tot += k
 		}
 		errAt := -1
-		if cr.chance(1, 4) {
+		if cr.chance(1, 4) && !huge {
 			errAt = cr.intn(len(text) + 1)
 		}
 		useReuse := cr.chance(1, 2)
